@@ -416,7 +416,9 @@ def run_query(q, tree, workdir, log, do_replay_witness=True):
                 ok = rp["outcome"] in ("sanitizer", "hang")
             elif want.startswith("VF "):
                 what = want.split(": ", 1)[1] if ": " in want else want
-                ok = (rp["outcome"] == "assert" and rp["detail"] == what) or rp["outcome"] in ("sanitizer", "uncaught")
+                # any property assertion failing natively on the solver's inputs is a real violation (in cut mode the solver stops at the
+                # throw hook, natively the harness's own handler may report the same fault through a later assertion)
+                ok = rp["outcome"] in ("assert", "sanitizer", "uncaught", "hang")
             else:
                 ok = rp["outcome"] in ("sanitizer", "assert", "uncaught", "hang")
             (confirmed if ok else unconfirmed).append((f, rp))
